@@ -44,12 +44,14 @@ type gridOpts struct {
 	Deleting   bool
 	Paused     bool
 	Limit      int32
+	SelExpr    bool  // selector written with matchExpressions
+	Far        []int // extra Ready pods at these multi-digit ordinals in every population
 }
 
 func p32(i int32) *int32 { return &i }
 
 func strategiesFor(n int) []gen.Strategy {
-	return []gen.Strategy{gen.RU(0), gen.RU(1), gen.RU(2), gen.RU(int32(n)), gen.RU(int32(n + 3)), gen.OnDelete(), gen.OnDeleteWithBlock(1)}
+	return []gen.Strategy{gen.RU(0), gen.RU(1), gen.RU(2), gen.RU(int32(n)), gen.RU(int32(n + 3)), gen.OnDelete(), gen.OnDeleteWithBlock(1), gen.Typeless(2)}
 }
 
 // alphabet of pod cells for a history.
@@ -134,7 +136,7 @@ func snapshotGrid(o gridOpts, emit func(explore.Case) bool) {
 				base := steady(o.N, des, h)
 				for _, pol := range o.Policies {
 					for _, strat := range o.Strategies {
-						sp := gen.Spec{Name: gen.SetName, Replicas: r, Slots: slots, Policy: pol, Strategy: strat, Limit: o.Limit, Template: h.Tmpl, Deleting: o.Deleting, Paused: o.Paused}
+						sp := gen.Spec{Name: gen.SetName, Replicas: r, Slots: slots, Policy: pol, Strategy: strat, Limit: o.Limit, Template: h.Tmpl, Deleting: o.Deleting, Paused: o.Paused, SelExpr: o.SelExpr}
 						stop := false
 						for d := o.DMin; d <= o.DMax || (o.DMax < 0 && d == o.DMin); d++ {
 							dd := d
@@ -145,7 +147,7 @@ func snapshotGrid(o gridOpts, emit func(explore.Case) bool) {
 								if stop {
 									return
 								}
-								sc := gen.Scenario{Spec: sp, Revs: h.Revs, Cur: h.Cur, Cells: cells}
+								sc := gen.Scenario{Spec: sp, Revs: h.Revs, Cur: h.Cur, Cells: cells, Far: o.Far}
 								if !emit(explore.Case{Label: sc.String(), Build: func(w *world.World) *world.State { return sc.Build(w) }}) {
 									stop = true
 								}
@@ -166,6 +168,6 @@ func fmtOpts(o gridOpts) string {
 	for _, h := range o.Histories {
 		hs = append(hs, h.Name)
 	}
-	return fmt.Sprintf("ordinals 0..%d, replicas %d..%d, every slot subset of the ordinals with <=%d members, policies %v, strategies %v, histories %v, pod populations differing from the steady state in %d..%d ordinals (max<0 = full product) over a %s cell alphabet (phase x ready x terminating x revision), deleting=%v paused=%v",
-		o.N-1, o.MinR, o.MaxR, o.MaxSlots, o.Policies, o.Strategies, hs, o.DMin, o.DMax, map[bool]string{true: "rich", false: "basic"}[o.Rich], o.Deleting, o.Paused)
+	return fmt.Sprintf("ordinals 0..%d, replicas %d..%d, every slot subset of the ordinals with <=%d members, policies %v, strategies %v, histories %v, pod populations differing from the steady state in %d..%d ordinals (max<0 = full product) over a %s cell alphabet (phase x ready x terminating x revision), deleting=%v paused=%v selectorAsExpressions=%v extraPodsAtOrdinals=%v",
+		o.N-1, o.MinR, o.MaxR, o.MaxSlots, o.Policies, o.Strategies, hs, o.DMin, o.DMax, map[bool]string{true: "rich", false: "basic"}[o.Rich], o.Deleting, o.Paused, o.SelExpr, o.Far)
 }
